@@ -632,6 +632,7 @@ impl<'a, 'h> Interp<'a, 'h> {
         if self.dialect == Dialect::Luau {
             if let Value::Table(_) = f {
                 if self.metamethod(&f, MM_CALL).is_nil() {
+                    super::note_dialect_event(0);
                     let it = self.metamethod(&f, MM_ITER);
                     if it.is_nil() {
                         s = f;
@@ -1163,16 +1164,23 @@ impl<'a, 'h> Interp<'a, 'h> {
             BinOp::Mul => x * y,
             BinOp::Div => x / y,
             BinOp::Pow => x.powf(y),
-            BinOp::Mod => match self.dialect {
-                Dialect::Lua51 => x - (x / y).floor() * y,
-                Dialect::Luau => {
+            BinOp::Mod => {
+                let r51 = x - (x / y).floor() * y;
+                let rluau = {
                     let mut r = x % y;
                     if r != 0.0 && ((r < 0.0) != (y < 0.0)) {
                         r += y;
                     }
                     r
+                };
+                if r51.to_bits() != rluau.to_bits() && !(r51.is_nan() && rluau.is_nan()) {
+                    super::note_dialect_event(0);
                 }
-            },
+                match self.dialect {
+                    Dialect::Lua51 => r51,
+                    Dialect::Luau => rluau,
+                }
+            }
             BinOp::IDiv => {
                 if self.dialect == Dialect::Lua51 {
                     return rt("'//' is not an operator of Lua 5.1");
